@@ -64,6 +64,13 @@ def run(tier):
         return out
     sets.append(('reuse-vpsc', 'vpsc', gen_reuse(300 if quick else 3000, 8), False))
     sets.append(('reuse-avoid', 'avoid', gen_reuse(150 if quick else 1500, 8), False))
+    # directed family `mean-preserving re-solve` (DESIGN 9.19; mostly satisfy() passes here, C02 runs it with solve()): after a pass the desired
+    # positions of blocks of the RETURNED partition move by weighted-zero-sum dyadic perturbations (Block::posn keeps its value bit for bit)
+    rng_mp = C.SplitMix64(res.seed ^ 0xC01919)       # its own stream: the other sets see the instances they saw before
+    for lab, impl_, cnt in (('mp-resolve-vpsc', 'vpsc', 200 if quick else 2000), ('mp-resolve-avoid', 'avoid', 100 if quick else 1000)):
+        mpi, _ = L.gen_mp_histories(rng_mp, cnt, 7, impl_, nid[0] + 1, solve_num=1)
+        nid[0] += cnt
+        sets.append((lab, impl_, mpi, False))
     sets.append(('inc-vpsc-large', 'vpsc', gen(40 if quick else 600, 40), False))
 
     def gen_gp(n, nmax):
@@ -220,7 +227,8 @@ def run(tier):
     res.cov.update({'evaluations': evals, 'distinct_nontrivial': len(nontrivial),
                     'rule': 'one evaluation = one solve()/satisfy() return of the real solver checked by the verified oracles and (IncSolver) compared with '
                             'the extracted model; instances from SplitMix64(seed): DAGs, chains needing splits, cycles of total gap -1/0/+1, duplicates, '
-                            '25% equalities, scaled variables, negative/zero gaps, op histories (addConstraint / desired position / Variable::weight / re-solve) up to 8 ops; constraint objects re-used across '
+                            '25% equalities, scaled variables, negative/zero gaps, op histories (addConstraint / desired position / Variable::weight / re-solve) up to 8 ops; '
+                            'mean-preserving re-solves (sets mp-resolve-*: desired positions of a block of the returned partition moved with its weighted mean exactly preserved); constraint objects re-used across '
                             'successive solvers (sets reuse-*); '
                             'static Solver on DAGs and on cyclic multigraphs (a throw of UnsatisfiedConstraint = reported; legitimate iff verified positive cycle); '
                             'non-trivial = distinct instances in which some constraint ended active or flagged unsatisfiable',
